@@ -184,6 +184,37 @@ def execute_repair(case, seed):
     return run2, case2
 
 
+def execute_supply(case, seed):
+    """History on ONE Solver: a solve without prompting that fails for want of inputs; the caller puts the inputs it named
+    into the store and calls solve() on the same Solver again.  -> (run2 or None, case2)"""
+    import copy
+    rng = core.Rng(core.h64('supply', seed))
+    c1 = copy.deepcopy(case)
+    c1['prompt'] = False
+    keep = rng.pick([0.3, 0.6, 0.8])
+    names = [n for n in sorted(c1['persona']) if (rng.chance(keep) or c1['persona'][n]['invalid'] or '\n' in c1['persona'][n]['text']
+                                                  or '%' in c1['persona'][n]['text']) and not c1['persona'][n].get('stray')]
+    run1 = execute(c1, names=names)
+    if run1.outcome != 'failed' or not run1.unmet_in or not run1.rec.solvers:
+        return None, c1
+    case2 = copy.deepcopy(c1)
+    given = []
+    for q in sorted(run1.unmet_in):
+        p_ = case2['persona'].get(q)
+        if p_ is None or p_['invalid'] or '%' in p_['text'] or '\n' in p_['text']:
+            continue
+        try:
+            run1.store[q] = p_['text']
+        except Exception:
+            return None, c1
+        given.append(q)
+    if not given:
+        return None, c1
+    run2 = execute(case2, store=run1.store, solver=run1.rec.solvers[-1], prompt=False)
+    run2.given = given
+    return run2, case2
+
+
 def execute_reuse(case, seed):
     """History on ONE InputStore: solve, edit the store through its mapping API (delete / re-set an input that was
     read), solve again with a fresh Solver.  Returns (run1, run2, case2, edits); case2 carries the edited persona."""
@@ -432,6 +463,12 @@ def judge_common(run, r1):
             out.append(F('C14', 'C14.solution', 'solution-vs-computed',
                          f'solution() differs from the lines that were computed: missing {sorted(done - set(flat))[:5]} '
                          f'extra {sorted(set(flat) - done)[:5]}'))
+        # ---- C01: success is only reported when every demanded line has a value ----
+        if run.outcome == 'solved' and r1.verdict == 'solved':
+            unvalued = sorted(set(r1.demanded) - set(flat))
+            if unvalued:
+                out.append(F('C01', 'C01.a', 'demanded-line-without-value',
+                             f'solve() returned True but the demanded lines {unvalued[:6]} have no value'))
         # ---- C06: no lost waiter => everything the model can compute was computed ----
         lost = sorted(set(r1.values) - set(flat))
         if lost and r1.verdict != 'abort':
